@@ -53,7 +53,7 @@ man = {
     "notes": "See DESIGN.md (section 13 is the build report; 13.6 the extension session). The integer / control logic of "
              "most of /repo is re-derived from the Python AST on every run (harness/gen, Gen/*.v) and proved equal to the "
              "hand models. 23 genuine defects repaired in /repo ('fix:' commits) and 3 recorded findings: "
-             "KNOWN_FINDINGS.txt. 128 independently seeded bugs with demonstrations: seeded/ (TABLE.md).",
+             "KNOWN_FINDINGS.txt. 140 independently seeded bugs with demonstrations: seeded/ (TABLE.md).",
     "not_applicable": na,
 }
 json.dump(man, open(os.path.join(VERIF, "MANIFEST.json"), "w"), indent=1)
